@@ -144,93 +144,101 @@ Definition fin (lenient : bool) (s : bytes) : bytes := if lenient then strip_lef
 Section Parser.
 Variable lenient : bool.
 
-(* [parse_expr]: ParseExpression.  [parse_and]: the loop of the AND branch, entered after an
-   "AND" word; returns the remaining items of the list. *)
-Fixpoint parse_expr (fuel : nat) (s : bytes) : option (fast * bytes) :=
-  match fuel with
-  | O => None
-  | S f =>
-    match s with
-    | c :: r0 =>
-      if negb (c =? LP) then None else
-      let s1 := strip_left r0 in
-      match s1 with
-      | [] => None                                                      (* Word expected *)
-      | c1 :: r1 =>
-        if c1 =? LP then
-          match parse_expr f s1 with
-          | None => None
-          | Some (first, s2) =>
-            match s2 with
-            | c2 :: r2 =>
-              if c2 =? RP then Some (first, fin lenient r2) else
-              match expect_word s2 with
-              | Some (w, s3) =>
-                if beq w and_word then
-                  match parse_and f s3 with
-                  | Some (items, s4) => Some (FAnd (first :: items), s4)
-                  | None => None
-                  end
-                else None                                               (* 'AND' expected *)
-              | None => None
-              end
-            | [] => None
-            end
-          end
-        else if c1 =? BANG then
-          let s2 := strip_left r1 in
+(* One activation of ParseExpression, given the functions for the recursive calls:
+   [pe] = ParseExpression itself, [pa] = the rest of the AND loop (entered after an "AND" word,
+   returns the remaining items of the list). *)
+Definition expr_body (pe : bytes -> option (fast * bytes)) (pa : bytes -> option (list fast * bytes))
+    (s : bytes) : option (fast * bytes) :=
+  match s with
+  | c :: r0 =>
+    if negb (c =? LP) then None else
+    let s1 := strip_left r0 in
+    match s1 with
+    | [] => None                                                      (* Word expected *)
+    | c1 :: r1 =>
+      if c1 =? LP then
+        match pe s1 with
+        | None => None
+        | Some (first, s2) =>
           match s2 with
-          | c2 :: _ =>
-            if negb (c2 =? LP) then None else                           (* '(' expected *)
-            match parse_expr f s2 with
-            | Some (inner, c3 :: r3) =>
-              if c3 =? RP then Some (FNot inner, strip_left r3) else None   (* ')' expected *)
-            | _ => None
+          | c2 :: r2 =>
+            if c2 =? RP then Some (first, fin lenient r2) else
+            match expect_word s2 with
+            | Some (w, s3) =>
+              if beq w and_word then
+                match pa s3 with
+                | Some (items, s4) => Some (FAnd (first :: items), s4)
+                | None => None
+                end
+              else None                                               (* 'AND' expected *)
+            | None => None
             end
           | [] => None
           end
-        else
-          match expect_word s1 with
-          | None => None
-          | Some (w, s2) =>
-            match parse_string_filter s2 with
-            | Some (o, v, c3 :: r3) =>
-              if c3 =? RP then Some (FLeaf w o v, strip_left r3) else None  (* ')' expected *)
-            | _ => None
-            end
+        end
+      else if c1 =? BANG then
+        let s2 := strip_left r1 in
+        match s2 with
+        | c2 :: _ =>
+          if negb (c2 =? LP) then None else                           (* '(' expected *)
+          match pe s2 with
+          | Some (inner, c3 :: r3) =>
+            if c3 =? RP then Some (FNot inner, strip_left r3) else None   (* ')' expected *)
+          | _ => None
           end
-      end
-    | [] => None
+        | [] => None
+        end
+      else
+        match expect_word s1 with
+        | None => None
+        | Some (w, s2) =>
+          match parse_string_filter s2 with
+          | Some (o, v, c3 :: r3) =>
+            if c3 =? RP then Some (FLeaf w o v, strip_left r3) else None  (* ')' expected *)
+          | _ => None
+          end
+        end
     end
+  | [] => None
+  end.
+
+Definition and_body (pe : bytes -> option (fast * bytes)) (pa : bytes -> option (list fast * bytes))
+    (s : bytes) : option (list fast * bytes) :=
+  match s with
+  | c :: _ =>
+    if negb (c =? LP) then None else       (* ParseExpression asserts '(' here; rejected *)
+    match pe s with
+    | None => None
+    | Some (item, s2) =>
+      match s2 with
+      | c2 :: r2 =>
+        if c2 =? RP then Some ([item], fin lenient r2) else
+        match expect_word s2 with
+        | Some (w, s3) =>
+          if beq w and_word then
+            match pa s3 with
+            | Some (items, s4) => Some (item :: items, s4)
+            | None => None
+            end
+          else None
+        | None => None
+        end
+      | [] => None
+      end
+    end
+  | [] => None
+  end.
+
+(* the recursion, on explicit fuel *)
+Fixpoint parse_expr (fuel : nat) (s : bytes) : option (fast * bytes) :=
+  match fuel with
+  | O => None
+  | S f => expr_body (parse_expr f) (parse_and f) s
   end
 with parse_and (fuel : nat) (s : bytes) : option (list fast * bytes) :=
   match fuel with
   | O => None
-  | S f =>
-    match s with
-    | c :: _ =>
-      if negb (c =? LP) then None else       (* ParseExpression asserts '(' — MPD would misbehave; rejected here *)
-      match parse_expr f s with
-      | None => None
-      | Some (item, s2) =>
-        match s2 with
-        | c2 :: r2 =>
-          if c2 =? RP then Some ([item], fin lenient r2) else
-          match expect_word s2 with
-          | Some (w, s3) =>
-            if beq w and_word then
-              match parse_and f s3 with
-              | Some (items, s4) => Some (item :: items, s4)
-              | None => None
-              end
-            else None
-          | None => None
-          end
-        | [] => None
-        end
-      end
-    | [] => None
-    end
+  | S f => and_body (parse_expr f) (parse_and f) s
   end.
 
 End Parser.
@@ -252,8 +260,7 @@ Fixpoint eval (leaf : bytes -> fop -> bytes -> bool) (a : fast) : bool :=
   match a with
   | FLeaf w o v => leaf w o v
   | FNot x => negb (eval leaf x)
-  | FAnd l => (fix all (l : list fast) : bool :=
-                 match l with [] => true | x :: r => eval leaf x && all r end) l
+  | FAnd l => forallb (eval leaf) l
   end.
 
 (* AND lists flattened (associativity), one-element lists dropped *)
@@ -262,10 +269,8 @@ Fixpoint flatten (a : fast) : fast :=
   | FLeaf w o v => a
   | FNot x => FNot (flatten x)
   | FAnd l =>
-    let items := (fix go (l : list fast) : list fast :=
-                    match l with
-                    | [] => []
-                    | x :: r => match flatten x with FAnd xs => xs | y => [y] end ++ go r
-                    end) l in
-    match items with [x] => x | _ => FAnd items end
+    match flat_map (fun x => match x with FAnd xs => xs | y => [y] end) (map flatten l) with
+    | [x] => x
+    | items => FAnd items
+    end
   end.
